@@ -13,7 +13,7 @@ Lemma up_from_spec : forall t parts k q j,
     (1 <= j <= k)%nat /\ get_parts t (map lower (firstn j parts)) = Some q
     /\ forall i, (j < i <= k)%nat -> get_parts t (map lower (firstn i parts)) = None.
 Proof.
-  induction k as [|k IH]; intros q j H; simpl in H; [discriminate|].
+  induction k as [|k IH]; intros q j H; cbn [up_from] in H; [discriminate|].
   destruct (get_parts t (map lower (firstn (S k) parts))) as [q0|] eqn:E.
   - inversion H; subst. split; [lia|]. split; [exact E|]. intros i Hi. lia.
   - apply IH in H as [H1 [H2 H3]]. split; [lia|]. split; [exact H2|].
